@@ -1,4 +1,5 @@
 import Falcon.Props.C06
+import Falcon.Lemmas.KeyCodecSk
 
 /-!
 # C05 — sizes and exact round trip (format side) and the key-generation guards
@@ -21,15 +22,13 @@ theorem sizes :
     1 + 512 * Gen.pkWidth / 8 = 897 ∧ 1 + 1024 * Gen.pkWidth / 8 = 1793 ∧
     Gen.sigBytelen512 = 666 ∧ Gen.sigBytelen1024 = 1280 := by decide
 
-def allIn (lo : Int) (cnt : Nat) (p : Int → Bool) : Bool := (List.range cnt).all fun i => p (lo + (i : Nat))
-
 /-- **field round trip, complete**: for each width w ∈ {5, 6, 8} and every v with |v| ≤ 2^(w−1) − 1,
     decoding the w-bit encoding of v gives back the residue of v -/
 theorem field_roundtrip_all :
     allIn (-15) 31 (fun v => deserializeField (intBits 5 v) == some (Zq.new v)) = true ∧
     allIn (-31) 63 (fun v => deserializeField (intBits 6 v) == some (Zq.new v)) = true ∧
-    allIn (-127) 255 (fun v => deserializeField (intBits 8 v) == some (Zq.new v)) = true := by
-  decide +kernel
+    allIn (-127) 255 (fun v => deserializeField (intBits 8 v) == some (Zq.new v)) = true :=
+  KeyCodec.field_roundtrip_all
 
 /-- … and the value just outside (−2^(w−1), the reserved pattern) is rejected by the decoder -/
 theorem field_reserved_rejected :
@@ -58,6 +57,40 @@ theorem accepted_is_in_range (n : Nat) (hn : n = 512 ∨ n = 1024) (f g cF cG : 
   · intro c hc
     have : ¬ c.natAbs > 127 := fun h => hFG ⟨c, hc, h⟩
     omega
+
+/-- **public key round trip**: every canonical coefficient vector of length 512 / 1024 encodes to 897 / 1793
+    bytes and decodes back to itself -/
+theorem public_key_roundtrip (N : Nat) (hN : N = 512 ∨ N = 1024) (h : List Nat) (hl : h.length = N)
+    (hq : ∀ x ∈ h, x < 12289) :
+    pkFromBytes N (pkToBytes h) = .ok (.ok h) ∧ (pkToBytes h).length = 1 + N * Gen.pkWidth / 8 := by
+  have h1 := pk_roundtrip N hN h hl hq
+  refine ⟨h1, ?_⟩
+  -- the decoder infers the variant from the length, so acceptance pins the length
+  unfold pkFromBytes at h1
+  cases hlk : Gen.pkLen.lookup (pkToBytes h).length with
+  | none => simp [hlk] at h1
+  | some n =>
+    simp only [hlk] at h1
+    by_cases hn : n ≠ N
+    · simp [hn] at h1
+    · have := pkLen_some _ _ hlk
+      rcases hN with rfl | rfl <;> rcases this with ⟨a, b⟩ | ⟨a, b⟩ <;> simp [Gen.pkWidth] <;> omega
+
+/-- **secret key round trip** (the stored polynomials f, g, F): every triple within the ranges the key-generation
+    guards enforce (`accepted_is_in_range`) serialises without overflow, in both build modes, to 1281 / 2305
+    bytes, and decodes back to the residues of the same coefficients -/
+theorem secret_key_roundtrip (chk : Bool) (N : Nat) (hN : N = 512 ∨ N = 1024) (f g cF cG : List Int)
+    (lf : f.length = N) (lg : g.length = N) (lF : cF.length = N) (hr : inRange N f g cF cG) :
+    ∃ b, skToBytes chk f g cF = .ok b ∧ b.length = (if N = 512 then 1281 else 2305) ∧
+      skFromBytes N b = .ok (.ok (f.map Zq.new, g.map Zq.new, cF.map Zq.new)) := by
+  obtain ⟨hfg, hFG⟩ := hr
+  rcases hN with rfl | rfl
+  · exact sk_roundtrip chk 512 6 1280 (Or.inl ⟨rfl, rfl, rfl⟩) f g cF lf lg lF
+      (fun x hx => by simpa using hfg x (by simp [hx])) (fun x hx => by simpa using hfg x (by simp [hx]))
+      (fun x hx => hFG x (by simp [hx]))
+  · exact sk_roundtrip chk 1024 5 2304 (Or.inr ⟨rfl, rfl, rfl⟩) f g cF lf lg lF
+      (fun x hx => by simpa using hfg x (by simp [hx])) (fun x hx => by simpa using hfg x (by simp [hx]))
+      (fun x hx => hFG x (by simp [hx]))
 
 /-- a signature survives serialisation: decoding what `to_bytes` wrote gives back salt and body -/
 theorem signature_roundtrip_512 (salt s : List Nat) (hs : salt.length = 40) (hb : s.length = 625) :
